@@ -435,6 +435,18 @@ theorem mem_nested_instance :
     ∀ op, op ≠ .dump → memNest.is op = false → memNest.good (memProgWith true op) :=
   ⟨memNest_describes, memProgN_good⟩
 
+/-- GENERATED FACT.  Every memory-backend method of the table other than the two nested snapshot
+    methods (27, 28) — the 30 other MDK trait methods and all 56 OpenMLS `StorageProvider` methods —
+    is made of sections holding exactly ONE lock: `group_snapshots` for `release_group_snapshot`,
+    `list_group_snapshots`, `prune_expired_snapshots` (29, 30, 31: excluded while a nested section
+    holds that lock), `inner` for everything else (the methods `mem_nested_instance` shows
+    independent of the snapshot map: in the model the OpenMLS methods are the rows written / read /
+    deleted by `mlsWrite` / `mlsRead` / `mlsDelete`) -/
+theorem mem_methods_lock_partition :
+    (Generated.lockShape.filter (fun e => e.1 == 0 && !(e.2.1 == 27 || e.2.1 == 28))).all
+      (fun e => e.2.2.2.1.all (fun st =>
+        st.length == 1 && st.all (fun l => l.1 == (if e.2.1 == 29 || e.2.1 == 30 || e.2.1 == 31 then 1 else 0)))) = true := by
+  decide
 /-- the fused snapshot operations are ONE section each and ARE the sequential model's operations -/
 theorem mem_fused_is_step (op : Op) (s : Store) (hb : s.backend = .mem) :
     (memNest.fuse (memProgWith true) op).run s = Store.step s op := memN_fuse_run op s hb
